@@ -2,8 +2,10 @@
 package document
 
 import (
+	"bytes"
 	"encoding/xml"
 	"fmt"
+	"sort"
 	"strconv"
 )
 
@@ -140,18 +142,32 @@ type NumberingManager struct {
 	nextNumID         int
 	abstractNums      map[string]*AbstractNum
 	numInstances      map[string]*NumInstance
+	// existing 是打开的文档原有的 word/numbering.xml（原样保留，新定义追加在其中）；新建的文档为 nil
+	existing *existingPart
 }
 
 // getNumberingManager 获取文档自己的编号管理器（按需创建）。
 // 每个文档拥有独立的管理器：编号定义和编号ID不会在文档之间共享。
+// 打开的文档已有 word/numbering.xml 时，管理器从其中的定义之后继续：
+// 已有的 w:abstractNum / w:num 保留，新的ID从已有的最大值之后开始。
 func (d *Document) getNumberingManager() *NumberingManager {
 	if d.numberingManager == nil {
-		d.numberingManager = &NumberingManager{
+		manager := &NumberingManager{
 			nextAbstractNumID: 0,
 			nextNumID:         1,
 			abstractNums:      make(map[string]*AbstractNum),
 			numInstances:      make(map[string]*NumInstance),
 		}
+		if data, exists := d.parts["word/numbering.xml"]; exists {
+			if existing, err := parseExistingPart(data, "numbering"); err == nil {
+				manager.existing = existing
+				manager.nextAbstractNumID = existing.maxID("abstractNum", -1) + 1
+				manager.nextNumID = existing.maxID("num", 0) + 1
+			} else {
+				Debugf("已有的 word/numbering.xml 无法读取，将被重新生成: %v", err)
+			}
+		}
+		d.numberingManager = manager
 	}
 	return d.numberingManager
 }
@@ -166,6 +182,7 @@ func (m *NumberingManager) clone() *NumberingManager {
 		nextNumID:         m.nextNumID,
 		abstractNums:      make(map[string]*AbstractNum, len(m.abstractNums)),
 		numInstances:      make(map[string]*NumInstance, len(m.numInstances)),
+		existing:          m.existing, // 只读，可以共享
 	}
 	for k, v := range m.abstractNums {
 		c.abstractNums[k] = v
@@ -273,6 +290,9 @@ type ListItem struct {
 
 // ensureNumberingInitialized 确保编号系统已初始化
 func (d *Document) ensureNumberingInitialized() {
+	// 先取得管理器：打开的文档已有的编号定义在 numbering.xml 被改写之前读入
+	d.getNumberingManager()
+
 	// 检查是否已有编号定义
 	if _, exists := d.parts["word/numbering.xml"]; !exists {
 		d.initializeNumbering()
@@ -420,6 +440,14 @@ func (d *Document) updateNumberingFile() {
 		numbering.NumberingInstances = append(numbering.NumberingInstances, numInstance)
 	}
 
+	// 打开的文档：保留已有的定义，把新的定义追加进去
+	if manager.existing != nil {
+		if merged, err := mergeNumbering(manager.existing, numbering); err == nil {
+			d.parts["word/numbering.xml"] = merged
+		}
+		return
+	}
+
 	// 序列化
 	numberingXML, err := xml.MarshalIndent(numbering, "", "  ")
 	if err != nil {
@@ -429,6 +457,60 @@ func (d *Document) updateNumberingFile() {
 	// 添加XML声明
 	xmlDeclaration := []byte(`<?xml version="1.0" encoding="UTF-8" standalone="yes"?>` + "\n")
 	d.parts["word/numbering.xml"] = append(xmlDeclaration, numberingXML...)
+}
+
+// mergeNumbering 把新的编号定义写进已有的 numbering.xml：
+// 已有的子元素原样保留，新的 w:abstractNum 放在已有的 w:abstractNum 之后，
+// 新的 w:num 放在已有的 w:num 之后（CT_Numbering 要求 abstractNum 都在 num 之前）。
+func mergeNumbering(existing *existingPart, added *Numbering) ([]byte, error) {
+	sort.Slice(added.AbstractNums, func(i, j int) bool {
+		a, _ := strconv.Atoi(added.AbstractNums[i].AbstractNumID)
+		b, _ := strconv.Atoi(added.AbstractNums[j].AbstractNumID)
+		return a < b
+	})
+	sort.Slice(added.NumberingInstances, func(i, j int) bool {
+		a, _ := strconv.Atoi(added.NumberingInstances[i].NumID)
+		b, _ := strconv.Atoi(added.NumberingInstances[j].NumID)
+		return a < b
+	})
+
+	// 已有子元素的顺序：numPicBullet*, abstractNum*, num*, numIdMacAtCleanup?
+	children := existing.children
+	abstractEnd := 0
+	for abstractEnd < len(children) && (children[abstractEnd].local == "numPicBullet" || children[abstractEnd].local == "abstractNum") {
+		abstractEnd++
+	}
+	numEnd := abstractEnd
+	for numEnd < len(children) && children[numEnd].local == "num" {
+		numEnd++
+	}
+
+	var buf bytes.Buffer
+	buf.Write(existing.head)
+	for _, child := range children[:abstractEnd] {
+		buf.Write(child.raw)
+	}
+	for _, abstractNum := range added.AbstractNums {
+		if err := existing.marshalInto(&buf, abstractNum); err != nil {
+			return nil, err
+		}
+	}
+	for _, child := range children[abstractEnd:numEnd] {
+		buf.Write(child.raw)
+	}
+	for _, numInstance := range added.NumberingInstances {
+		if err := existing.marshalInto(&buf, numInstance); err != nil {
+			return nil, err
+		}
+	}
+	for _, child := range children[numEnd:] {
+		buf.Write(child.raw)
+	}
+	if len(children) == numEnd && bytes.HasPrefix(existing.tail, []byte("<")) {
+		buf.WriteByte('\n')
+	}
+	buf.Write(existing.tail)
+	return buf.Bytes(), nil
 }
 
 // addNumberingRelationship 添加编号关系
